@@ -213,6 +213,8 @@ class MG(da.Solver):
         # Restrict residual (and parameters in case of heterogeneities)
         r = self.restriction(r)
         if self.heterogeneous:
+            # Cache the parameters and smoother of the current level
+            level_parameters = (self.mass_coeff, self.diffusion_coeff, self.smoother)
             self.restrict_parameters()
 
         # Solve/smooth coarse problem or further V-cycle
@@ -229,7 +231,9 @@ class MG(da.Solver):
         # Pad correction if necessary (to account for odd number of grid points)
         pad_tuple = tuple((0, x.shape[i] - eps.shape[i]) for i in range(self.dim))
         if self.heterogeneous:
-            self.prolongate_parameters(pad_tuple)
+            # Restore the parameters of the current level. NOTE: Restriction followed by
+            # prolongation is lossy, and would alter the parameters between calls.
+            self.mass_coeff, self.diffusion_coeff, self.smoother = level_parameters
         eps = np.lib.pad(
             eps,
             pad_tuple,
